@@ -1,27 +1,31 @@
 #!/bin/bash
 # Must-fail / must-pass corpus: every patch in mutants/ must make the named check report a VIOLATION,
-# every patch in benign/ must leave it green. Patches are applied to a scratch copy outside /repo and /verif.
-# usage: selftest/run.sh [pattern]
+# every patch in benign/ must leave it green. Patches are applied to scratch copies outside /repo and /verif.
+# usage: selftest/run.sh [pattern] [jobs]
 cd "$(dirname "$0")/.."
-pat=${1:-}
-scratch=/root/scratch/selftest.$$
-fail=0
+pat=${1:-}; jobs=${2:-3}
+root=/root/scratch/selftest.$$; mkdir -p "$root/res"
 run_one() {
   patch=$1; expect=$2
   name=$(basename "$patch" .patch)
   prop=${name%%_*}
+  scratch=$root/$name
   rm -rf "$scratch"; mkdir -p "$scratch"
   rsync -a --exclude out --exclude .git /repo/ "$scratch"/
-  if ! (cd "$scratch" && patch -p1 -s < "$OLDPWD/$patch"); then echo "SELFTEST $name: patch does not apply"; fail=1; return; fi
+  if ! (cd "$scratch" && patch -p1 -s < "$OLDPWD/$patch"); then echo "SELFTEST $name: patch does not apply"; echo 1 > "$root/res/$name"; rm -rf "$scratch"; return; fi
   out=$(bin/govc check -prop "$prop" -repo "$scratch" -evidence "$scratch/evidence.json" -out "$scratch/out" 2>&1)
-  rc=$?
+  rc=$?; bad=0
   if [ "$expect" = violation ]; then
-    if [ $rc -eq 1 ] && echo "$out" | grep -q "^VIOLATION property=$prop"; then echo "SELFTEST $name: caught ($(echo "$out" | grep -c '^VIOLATION') obligations)"; else echo "SELFTEST $name: MISSED (rc=$rc)"; echo "$out" | tail -5; fail=1; fi
+    if [ $rc -eq 1 ] && echo "$out" | grep -q "^VIOLATION property=$prop"; then echo "SELFTEST $name: caught ($(echo "$out" | grep -c '^VIOLATION') obligations)"; else echo "SELFTEST $name: MISSED (rc=$rc)"; echo "$out" | tail -5; bad=1; fi
   else
-    if [ $rc -eq 0 ]; then echo "SELFTEST $name: stays green"; else echo "SELFTEST $name: FALSE ALARM (rc=$rc)"; echo "$out" | tail -5; fail=1; fi
+    if [ $rc -eq 0 ]; then echo "SELFTEST $name: stays green"; else echo "SELFTEST $name: FALSE ALARM (rc=$rc)"; echo "$out" | tail -5; bad=1; fi
   fi
+  echo $bad > "$root/res/$name"
   rm -rf "$scratch"
 }
-for p in selftest/mutants/*${pat}*.patch; do [ -e "$p" ] && run_one "$p" violation; done
-for p in selftest/benign/*${pat}*.patch; do [ -e "$p" ] && run_one "$p" green; done
+for p in selftest/mutants/*${pat}*.patch; do [ -e "$p" ] || continue; run_one "$p" violation & while [ $(jobs -r | wc -l) -ge $jobs ]; do sleep 0.3; done; done
+for p in selftest/benign/*${pat}*.patch; do [ -e "$p" ] || continue; run_one "$p" green & while [ $(jobs -r | wc -l) -ge $jobs ]; do sleep 0.3; done; done
+wait
+fail=0; grep -qs 1 "$root"/res/* && fail=1
+rm -rf "$root"
 exit $fail
